@@ -279,10 +279,11 @@ impl Transport for LocalTransport {
 
                 // Preserve modification time
                 if let Ok(mtime) = source_meta.modified() {
-                    let _ = filetime::set_file_mtime(
-                        &dest,
-                        filetime::FileTime::from_system_time(mtime),
-                    );
+                    filetime::set_file_mtime(&dest, filetime::FileTime::from_system_time(mtime))
+                        .map_err(|e| SyncError::CopyError {
+                            path: dest.clone(),
+                            source: e,
+                        })?;
                 }
 
                 tracing::debug!(
@@ -325,8 +326,11 @@ impl Transport for LocalTransport {
 
             // Preserve modification time
             if let Ok(mtime) = source_meta.modified() {
-                let _ =
-                    filetime::set_file_mtime(&dest, filetime::FileTime::from_system_time(mtime));
+                filetime::set_file_mtime(&dest, filetime::FileTime::from_system_time(mtime))
+                    .map_err(|e| SyncError::CopyError {
+                        path: dest.clone(),
+                        source: e,
+                    })?;
             }
 
             Ok(bytes_written)
@@ -436,10 +440,14 @@ impl Transport for LocalTransport {
 
                 // Preserve modification time (same as the full-copy path)
                 if let Ok(mtime) = source_meta.modified() {
-                    let _ = filetime::set_file_mtime(
+                    filetime::set_file_mtime(
                         &dest,
                         filetime::FileTime::from_system_time(mtime),
-                    );
+                    )
+                    .map_err(|e| SyncError::CopyError {
+                        path: dest.clone(),
+                        source: e,
+                    })?;
                 }
 
                 return Ok(TransferResult::new(bytes_written));
@@ -480,10 +488,14 @@ impl Transport for LocalTransport {
 
                         // Preserve modification time (same as the full-copy path)
                         if let Ok(mtime) = source_meta.modified() {
-                            let _ = filetime::set_file_mtime(
-                                &dest,
-                                filetime::FileTime::from_system_time(mtime),
-                            );
+                            filetime::set_file_mtime(
+                        &dest,
+                        filetime::FileTime::from_system_time(mtime),
+                    )
+                    .map_err(|e| SyncError::CopyError {
+                        path: dest.clone(),
+                        source: e,
+                    })?;
                         }
 
                         return Ok(TransferResult::new(bytes_written));
@@ -842,10 +854,14 @@ impl Transport for LocalTransport {
             // Preserve modification time on the temp file so that the rename
             // publishes content and mtime together
             if let Ok(mtime) = source_meta.modified() {
-                let _ = filetime::set_file_mtime(
-                    &temp_dest,
-                    filetime::FileTime::from_system_time(mtime),
-                );
+                filetime::set_file_mtime(
+                        &temp_dest,
+                        filetime::FileTime::from_system_time(mtime),
+                    )
+                    .map_err(|e| SyncError::CopyError {
+                        path: temp_dest.clone(),
+                        source: e,
+                    })?;
             }
 
             // Atomic rename
